@@ -111,6 +111,8 @@ def run(ctx):
                     res.violation(oracle, sig, ex, ob, replay=r)
 
             st = e1.explore(ctx.pool, req, alpha, bound, on_exec, max_execs=60000)
+
+            flows.account_divergences(res, st)
             if st["capped"]:
                 res.caps_hit.append("%s/%s: frontier capped at 60000" % (variant, name))
             bounds["%s/%s" % (variant, name)] = {"bound": bound, "executions": st["executions"], "per_depth": st["per_depth"],
